@@ -97,6 +97,13 @@ impl Region {
             let abs_offset = region_start + offset;
             let slice = unsafe { std::slice::from_raw_parts_mut(ptr.add(abs_offset), value_len) };
             write_fn(&value, slice);
+            #[cfg(anydb_verif)]
+            crate::verif::emit(crate::verif::Event::MmapWritten {
+                file: crate::verif::FileKind::Data,
+                off: abs_offset,
+                len: value_len,
+                src: slice.as_ptr(),
+            });
             dirty_start = dirty_start.min(offset);
             dirty_end = dirty_end.max(end_offset);
         }
@@ -165,6 +172,8 @@ impl Region {
         // --- Fits in reserved space ---
         if new_len <= reserved {
             db.write(write_start, data);
+            #[cfg(anydb_verif)]
+            crate::verif::emit(crate::verif::Event::Point("write_with:after_data"));
             self.mark_dirty_abs(start, write_start, data_len);
 
             if new_len != len {
@@ -355,6 +364,12 @@ impl Region {
         let data_flushed = if let Some((min, max)) = dirty_bounds {
             let region_start = self.meta().start();
             let mmap = db.mmap();
+            #[cfg(anydb_verif)]
+            crate::verif::emit(crate::verif::Event::FlushAsync {
+                file: crate::verif::FileKind::Data,
+                off: region_start + min,
+                len: max - min,
+            });
             if let Err(e) = mmap.flush_async_range(region_start + min, max - min) {
                 drop(mmap);
                 self.restore_dirty_bounds(min, max);
@@ -371,6 +386,18 @@ impl Region {
         // Data MUST be durable before metadata — if we crash after metadata sync
         // but before data sync, metadata could reference unwritten data.
         if data_flushed || meta_flushed {
+            #[cfg(anydb_verif)]
+            {
+                let file = db.file();
+                crate::verif::emit(crate::verif::Event::SyncBegin {
+                    file: crate::verif::FileKind::Data,
+                });
+                file.sync_data()?;
+                crate::verif::emit(crate::verif::Event::SyncEnd {
+                    file: crate::verif::FileKind::Data,
+                });
+            }
+            #[cfg(not(anydb_verif))]
             db.file().sync_data()?;
             regions.sync_data()?;
         }
@@ -395,11 +422,15 @@ impl Region {
 
     #[inline(always)]
     pub fn meta(&self) -> RwLockReadGuard<'_, RegionMetadata> {
+        #[cfg(anydb_verif)]
+        crate::verif::lock_rw("meta", crate::verif::LockMode::Read, &self.0.meta);
         self.0.meta.read()
     }
 
     #[inline(always)]
     pub(crate) fn meta_mut(&self) -> RwLockWriteGuard<'_, RegionMetadata> {
+        #[cfg(anydb_verif)]
+        crate::verif::lock_rw("meta", crate::verif::LockMode::Write, &self.0.meta);
         self.0.meta.write()
     }
 
@@ -430,6 +461,17 @@ impl Region {
         } else {
             None
         }
+    }
+
+    /// Current length without emitting a lock event; usize::MAX if the lock is held exclusively.
+    #[cfg(anydb_verif)]
+    pub fn verif_len_untapped(&self) -> usize {
+        self.0.meta.try_read().map_or(usize::MAX, |m| m.len())
+    }
+
+    #[cfg(anydb_verif)]
+    pub fn verif_dirty_bounds(&self) -> (usize, usize) {
+        *self.0.dirty_bounds.lock()
     }
 
     #[inline]
